@@ -1,5 +1,6 @@
 import Verif.Proofs.MemHist
 import Verif.Facts.MemSnap
+import Verif.Facts.MemAlloc
 /-
   C07 — Restoring a snapshot brings back every byte of every bank and all banking state.
 -/
@@ -43,6 +44,15 @@ theorem C07_wrapped :
     Generated.WrappingMemory_TakeSnapshot = [("->", "p.mem.TakeSnapshot")] ∧
     Generated.WrappingMemory_RestoreSnapshot = [("->", "p.mem.RestoreSnapshot")] :=
   ⟨wrapper_forwards.1, wrapper_forwards.2.1⟩
+
+/-- `copy` silently truncates to the shorter slice: the copy lists only cover a region if the snapshot buffer is
+    as long as the live buffer.  Regenerated fact: in every constructor each snapshot buffer is allocated with
+    the same length expression as the buffer it saves. -/
+theorem C07_buffers :
+    pairsSized "LinearMemory" Generated.LinearMemory_TakeSnapshot = true ∧
+    pairsSized "X16Memory" Generated.X16Memory_TakeSnapshot = true ∧
+    pairsSized "NeoGeoRam" Generated.NeoGeoRam_TakeSnapshot = true ∧
+    pairsSized "F256RevBMemory" Generated.F256RevBMemory_TakeSnapshot = true := snapshot_buffers_sized
 
 -- non-vacuity: F256 — snapshot, then open the LUT edit window, rewrite a LUT entry and a byte, restore
 example :
